@@ -40,6 +40,10 @@ def _mode(m):
     return m, {}, {}
 
 
+def _kindof(dtype):
+    return "int" if dtype.startswith("int") else dtype
+
+
 def _data(seed, shape, dtype):
     n = int(np.prod(shape))
     x = sig.signal(seed, n).reshape(shape)
@@ -88,7 +92,7 @@ def _deltas_one(x, pristine, dtype, axis, window, mode, nd, concat, ta, in_place
     from pydrobert.speech import post
 
     name, padkw, _ = _mode(mode)
-    tags = dict(tags0, concatenate=bool(concat), pad_mode=name)
+    tags = dict(tags0, concatenate=bool(concat), edge_mode=bool(name == "edge"))
     case = dict(proc="Deltas", shape=list(x.shape), dtype=dtype, axis=axis, window=window,
                 mode=mode, num_deltas=nd, concatenate=bool(concat), target_axis=ta,
                 in_place=bool(in_place))
@@ -145,7 +149,7 @@ def _eval_deltas(pt, seed, tier):
     modes = MODES_QUICK if tier == "quick" else MODES_FULL
     viol, evals, nontriv, obs = [], 0, 0, set()
     skipped = 0
-    tags0 = dict(proc="Deltas", dtype=dtype, ndim=ndim)
+    tags0 = dict(proc="Deltas", dtype_kind=_kindof(dtype))
     for axis in range(-ndim, ndim):
         n = shape[axis]
         empty = int(np.prod(shape)) == 0
@@ -179,7 +183,7 @@ def _eval_deltas(pt, seed, tier):
                             if len(viol) >= 40:
                                 return core.result(viol, evals=evals, nontrivial_count=nontriv,
                                                    obs=sorted(map(str, obs)))
-    return core.result(viol, evals=evals, nontrivial_count=nontriv, obs=sorted(map(str, obs)),
+    return core.result(viol, evals=evals, nontrivial_count=nontriv, obs=sorted(map(str, obs)), obs_is_set=True,
                        skipped=skipped or None,
                        sample=dict(shape=list(shape), dtype=dtype, evaluations=evals,
                                    inner="axis x window x pad_mode x num_deltas x concatenate x "
@@ -193,7 +197,7 @@ def _replay_deltas(case, seed):
     orders = ref.delta_orders(x, case["num_deltas"], case["window"], case["axis"], name, **refkw)
     v, _ = _deltas_one(x, np.array(x, copy=True), dtype, case["axis"], case["window"], case["mode"],
                        case["num_deltas"], case["concatenate"], case["target_axis"],
-                       case["in_place"], orders, dict(proc="Deltas", dtype=dtype, ndim=len(shape)))
+                       case["in_place"], orders, dict(proc="Deltas", dtype_kind=_kindof(dtype)))
     return core.result(v)
 
 
@@ -255,7 +259,7 @@ def _eval_stack(pt, seed, tier):
     x = sig.ro(_data(seed, shape, dtype))
     pristine = np.array(x, copy=True)
     viol, evals, nontriv, obs = [], 0, 0, set()
-    tags0 = dict(proc="Stack", dtype=dtype)
+    tags0 = dict(proc="Stack", dtype_kind=_kindof(dtype))
     for nv in (1, 2, 3, 4):
         for time_axis in range(-ndim, ndim):
             for axis in range(-ndim, ndim):
@@ -292,6 +296,7 @@ def _eval_stack(pt, seed, tier):
                             return core.result(viol, evals=evals, nontrivial_count=nontriv,
                                                obs=sorted(map(str, obs)))
     return core.result(viol, evals=evals, nontrivial_count=nontriv, obs=sorted(map(str, obs)),
+                       obs_is_set=True,
                        sample=dict(shape=list(shape), dtype=dtype, evaluations=evals,
                                    inner="num_vectors 1..4 x time_axis x axis x pad_mode x in_place "
                                          "(+ singleton-axis N-D twin for 2-D inputs)"))
@@ -302,7 +307,7 @@ def _replay_stack(case, seed):
     x = sig.ro(_data(seed, shape, dtype))
     v, _, got = _stack_one(x, np.array(x, copy=True), dtype, case["num_vectors"], case["time_axis"],
                            case["axis"], case["pad"], case["in_place"],
-                           dict(proc="Stack", dtype=dtype))
+                           dict(proc="Stack", dtype_kind=_kindof(dtype)))
     return core.result(v)
 
 
